@@ -288,6 +288,52 @@ fn map_by_value_drops<const N: usize>() {
     must_reach!("mapped by value, inputs dropped by the closure");
 }
 
+/// Zero-sized elements with a destructor: no identity to track, so the ledger is a count - every
+/// element is either handed out or dropped by the consumer, `handed + dropped == N`.
+pub static mut ZDROPS: u8 = 0;
+struct ZTok;
+impl Drop for ZTok {
+    fn drop(&mut self) {
+        unsafe {
+            ZDROPS += 1;
+        }
+    }
+}
+
+fn consumer_zst_ops<const N: usize>() {
+    let mut c = ArrayConsumer::new(core::array::from_fn::<ZTok, N, _>(|_| ZTok));
+    let mut handed = 0usize;
+    let mut step = 0;
+    while step < N + 1 {
+        let op: u8 = kani::any();
+        match op % 3 {
+            0 => match c.next() {
+                Some(md) => {
+                    core::mem::forget(ManuallyDrop::into_inner(md));
+                    handed += 1;
+                }
+                None => assert!(handed == N),
+            },
+            1 => match c.next_back() {
+                Some(md) => {
+                    core::mem::forget(ManuallyDrop::into_inner(md));
+                    handed += 1;
+                }
+                None => assert!(handed == N),
+            },
+            _ => assert!(c.as_slice().len() == N - handed),
+        }
+        step += 1;
+    }
+    assert!(handed <= N);
+    let cloned: bool = kani::any();
+    drop(c);
+    let _ = cloned;
+    assert!(handed + unsafe { ZDROPS } as usize == N, "zero-sized Drop elements left in the consumer were not dropped exactly once");
+    must_reach!(handed >= 1 && handed < N || N < 2, "some taken, the rest dropped by the consumer");
+    must_reach!(handed == 0, "nothing taken: the consumer drops all N");
+}
+
 macro_rules! per_n {
     ($($m:ident: $n:literal);* $(;)?) => { $(
         pub mod $m {
@@ -295,6 +341,9 @@ macro_rules! per_n {
             tiers! { consumer_ops: unwind(8, 8), consumer_ops::<$n>(), consumer_ops::<$n>(),
                 calls("konst::array::ArrayConsumer::{new,next,next_back,as_slice,as_mut_slice,assert_is_empty,drop}"),
                 bounds("every sequence of N+2 operations, every payload", "same") }
+            tiers! { consumer_zst_ops: unwind(8, 8), consumer_zst_ops::<$n>(), consumer_zst_ops::<$n>(),
+                calls("konst::array::ArrayConsumer::<ZST>::{new,next,next_back,as_slice,drop}"),
+                bounds("zero-sized Drop elements; every sequence of N+1 operations, then drop", "same") }
             tiers! { consumer_empty: unwind(8, 8), consumer_empty::<$n>(), consumer_empty::<$n>(),
                 calls("konst::array::ArrayConsumer::empty"), bounds("N fixed", "same") }
             tiers! { consumer_clone: unwind(8, 8), consumer_clone::<$n>(), consumer_clone::<$n>(),
